@@ -1,5 +1,8 @@
 // Package rand is the simulator's stand-in for math/rand in transformed Zn packages:
-// inside a world every value comes from the choice tape, so replay is exact.
+// inside a world every value comes from the choice tape, so replay is exact. It also models
+// the package's thread-safety contract: the top-level functions are safe for concurrent
+// use, a *Rand obtained from New is NOT — every use of one is reported to the lockset race
+// oracle as a write of that generator's state.
 package rand
 
 import (
@@ -22,9 +25,81 @@ func Int63() int64 {
 	return rrand.Int63()
 }
 
+func Int() int { return int(Int63()) }
+
 func Intn(n int) int {
 	if w := zsim.W; w != nil {
 		return w.T.Draw(n)
 	}
 	return rrand.Intn(n)
 }
+
+func Int63n(n int64) int64 { return Int63() % n }
+func Int31n(n int32) int32 { return int32(Intn(int(n))) }
+func Seed(seed int64)      {}
+
+// Source / Rand: a private generator. Its state is a shared object as far as the race oracle
+// is concerned.
+type Source interface {
+	Int63() int64
+	Seed(seed int64)
+}
+
+type simSource struct{ real rrand.Source }
+
+func (s *simSource) Int63() int64 {
+	if zsim.W != nil {
+		return Int63()
+	}
+	return s.real.Int63()
+}
+func (s *simSource) Seed(seed int64) { s.real.Seed(seed) }
+
+func NewSource(seed int64) Source { return &simSource{real: rrand.NewSource(seed)} }
+
+type Rand struct {
+	src  Source
+	real *rrand.Rand
+}
+
+func New(src Source) *Rand {
+	r := &Rand{src: src}
+	if ss, ok := src.(*simSource); ok {
+		r.real = rrand.New(ss.real)
+	}
+	return r
+}
+
+func (r *Rand) touch(site string) {
+	if zsim.Tracking {
+		zsim.Access("math/rand.(*Rand)."+site, true, r, "rand.Rand.state (not safe for concurrent use)")
+	}
+}
+
+func (r *Rand) Float64() float64 {
+	r.touch("Float64")
+	if zsim.W != nil || r.real == nil {
+		return Float64()
+	}
+	return r.real.Float64()
+}
+
+func (r *Rand) Int63() int64 {
+	r.touch("Int63")
+	if zsim.W != nil || r.real == nil {
+		return Int63()
+	}
+	return r.real.Int63()
+}
+
+func (r *Rand) Intn(n int) int {
+	r.touch("Intn")
+	if zsim.W != nil || r.real == nil {
+		return Intn(n)
+	}
+	return r.real.Intn(n)
+}
+
+func (r *Rand) Int() int           { return int(r.Int63()) }
+func (r *Rand) Int63n(n int64) int64 { return r.Int63() % n }
+func (r *Rand) Seed(seed int64)    { r.touch("Seed") }
